@@ -149,5 +149,6 @@ package query
 // ALL over an empty sub-query
 //@ func InRowValueList
 //@   property C06
+//@   inline
 //@   ensures [any-over-no-row-is-false-and-all-over-no-row-is-true] len(list) == 0 ==> result1 == nil && result0 == ite(matchType == parser.ANY, ternary.FALSE, ternary.TRUE)
 //@   modifies *
